@@ -342,6 +342,14 @@ func (o *objectGoReflect) _put(name string, val Value, throw bool) (has, ok bool
 			if cached != nil {
 				delete(o.valueCache, name)
 			}
+			if info := o.fieldsInfo.Fields[name]; info.Anonymous && v.Kind() == reflect.Ptr {
+				// an embedded pointer was replaced: cached wrappers of fields promoted through it refer to the old target
+				for n := range o.valueCache {
+					if idx := o.fieldsInfo.Fields[n].Index; len(idx) > len(info.Index) && reflect.DeepEqual(idx[:len(info.Index)], info.Index) {
+						delete(o.valueCache, n)
+					}
+				}
+			}
 			return true, true
 		}
 	}
